@@ -377,3 +377,12 @@ for _p, _m in _EXTRA_MIN_OBS.items():
 
 # every exported view type must have produced valid instances (a seed the view rejects leaves its getters unexplored)
 PROPS['C01']['min_obs']['quick'] = dict(PROPS['C01']['min_obs']['quick'], **{'views_valid:' + t: 60 for t in ['ARP', 'DHCP4', 'DNS', 'Ether', 'EthernetPause', 'HopByHopExtensionHeader', 'ICMP', 'ICMP4Redirect', 'ICMP6NeighborAdvertisement', 'ICMP6NeighborSolicitation', 'ICMP6Redirect', 'ICMP6RouterAdvertisement', 'ICMP6RouterSolicitation', 'ICMPEcho', 'IEEE1905', 'IP4', 'IP6', 'LLC', 'LLDP', 'RRCP', 'SNAP', 'TCP', 'UDP']})
+
+# every send path (C07) and every handler entry point (C08) must have been observed
+for _p, _m in {'C07': {'tx_ok:ICMP4SendEchoRequest': 85, 'tx_ok:ICMP6SendEchoRequest': 81, 'tx_ok:ICMP6SendNeighborAdvertisement': 79, 'tx_ok:ICMP6SendNeighbourSolicitation': 81, 'tx_ok:ICMP6SendRouterAdvertisement': 64, 'tx_ok:ICMP6SendRouterSolicitation': 65, 'tx_ok:Ping': 82, 'tx_ok:Ping6': 81, 'tx_ok:arp.AnnounceTo': 79, 'tx_ok:arp.Probe': 83, 'tx_ok:arp.Reply': 90, 'tx_ok:arp.Request': 83, 'tx_ok:arp.RequestRaw': 79, 'tx_ok:arp.RequestTo': 84, 'tx_ok:arp.Scan': 10491, 'tx_ok:arp.WhoIs': 248, 'tx_ok:dhcp.SendDiscoverPacket': 81, 'tx_ok:dns.SendLLMNRQuery': 24, 'tx_ok:dns.SendMDNSQuery': 24, 'tx_ok:dns.SendNBNSNodeStatus': 84, 'tx_ok:dns.SendNBNSQuery': 83, 'tx_ok:dns.SendSSDPSearch': 83, 'tx_ok:dns.SendSleepProxyResponse': 83, 'tx_ok:icmp6.PingAll': 123, 'tx_ok:icmp6.StartRADVS': 198, 'tx_ok:purge-probe': 1423}, 'C08': {'handled:Process8023Frame': 1815, 'handled:arp.ProcessPacket': 1238, 'handled:dhcp4.ProcessPacket': 1174, 'handled:dns.ProcessDNS': 1496, 'handled:dns.ProcessMDNS': 1919, 'handled:dns.ProcessNBNS': 1137, 'handled:dns.ProcessSSDP': 1132, 'handled:icmp4.ProcessPacket': 1315, 'handled:icmp6.ProcessPacket': 929}}.items():
+    PROPS[_p]['min_obs'] = dict(PROPS[_p]['min_obs'])
+    PROPS[_p]['min_obs']['quick'] = dict(PROPS[_p]['min_obs'].get('quick', {}), **_m)
+
+# every view covered by the C02 getter comparison must have been compared
+PROPS['C02']['min_obs'] = dict(PROPS['C02']['min_obs'])
+PROPS['C02']['min_obs']['quick'] = dict(PROPS['C02']['min_obs'].get('quick', {}), **{'getters_compared:ARP': 480, 'getters_compared:DHCP4': 1180, 'getters_compared:DNS': 692, 'getters_compared:Ether': 460, 'getters_compared:HopByHopExtensionHeader': 623, 'getters_compared:ICMP6NeighborSolicitation': 479, 'getters_compared:ICMP6Redirect': 373, 'getters_compared:ICMP6RouterAdvertisement': 692, 'getters_compared:ICMPEcho': 534, 'getters_compared:IP4': 799, 'getters_compared:IP6': 533, 'getters_compared:RRCP': 1012, 'getters_compared:SNAP': 373, 'getters_compared:TCP': 961, 'getters_compared:UDP': 320})
